@@ -114,6 +114,10 @@ def generate(g, tier):
                  dict(op='compile', compiler='K', opts=o, dir='s2', src=dict(text=t)),
                  dict(op='compile_file', compiler='K', opts=o, dir='s3', file='other/main.txt', files={'other/main.txt': t})]
         cases.append(dict(op='history', steps=steps, meta=dict(family='entry-history', nocorr=True)))
+    # options follow what the caller and the project file say NOW: the same Compiler object and the same folder, with the
+    # options reassigned or config.yaml added / edited between two compilations
+    from . import C17
+    cases += [c for c in C17.revisit_histories(g, count(tier, 60, 400)) if c['meta']['family'] in ('revisit-config-change', 'revisit-config-appears', 'revisit-reassign-options', 'revisit-mixed')]
     return cases
 
 
